@@ -7,21 +7,22 @@ functional model: the model starts at `newQR` / `newFromKanji` and at `EncodeToB
 `EncodeToBitmap` (accepted exactly when valid, never a panic) and `New` say about these wrappers rests on HOW they
 reach the modelled functions: the package-level `Encode` is `New` followed by the image method, the image method
 draws through the validating `EncodeToBitmap` (not through an unexported drawing function), `New` dispatches to
-`newFromKanji` / `newQR` after the level check.  This call structure (callees in order of first appearance) is
+`newFromKanji` / `newQR` after the level check.  This call structure (the functions and methods DECLARED IN THE PACKAGE that each wrapper calls, by bare name, in order
+of first appearance; local variable names and the third-party rendering calls may change freely) is
 regenerated from the Go AST on every run and pinned here: a wrapper that stops going through the validating entry
 point breaks this obligation, and the check then looks for a failing input with the `*.encimg` / `render` /
 `*.new` lines, which run the wrappers themselves.
 -/
 namespace QRV.Props.C08
 
-theorem entry_calls_pinned : Gen.Shape.entryCalls = [".:Encode -> New qr.Encode",
-  ".:New -> newEncodeOptions lv.IsValid fmt.Errorf newFromKanji newQR",
-  ".:QRCode.Encode -> qr.Version.IsValid errors.New qr.Level.IsValid newEncodeOptions qr.EncodeToBitmap binimg.Bounds().Dx binimg.Bounds fp16.NewNRGBAh image.Rect fp16color.NewNRGBAh binimg.BinaryAt src.SetNRGBAh max int math.Ceil float64 resize.AreaAverage srgb.EncodeTone",
-  "microqr:Encode -> New qr.Encode",
-  "microqr:New -> newEncodeOptions fmt.Errorf newFromKanji newQR",
-  "microqr:QRCode.Encode -> newEncodeOptions qr.EncodeToBitmap binimg.Bounds().Dx binimg.Bounds fp16.NewNRGBAh image.Rect fp16color.NewNRGBAh binimg.BinaryAt src.SetNRGBAh max int math.Ceil float64 resize.AreaAverage srgb.EncodeTone",
-  "rmqr:Encode -> New qr.Encode",
-  "rmqr:New -> newEncodeOptions lv.IsValid fmt.Errorf newFromKanji newQR",
-  "rmqr:QRCode.Encode -> qr.Version.IsValid errors.New qr.Level.IsValid newEncodeOptions qr.EncodeToBitmap binimg.Bounds().Dx binimg.Bounds binimg.Bounds().Dy fp16.NewNRGBAh image.Rect fp16color.NewNRGBAh binimg.BinaryAt src.SetNRGBAh max int math.Ceil float64 resize.AreaAverage srgb.EncodeTone"] := rfl
+theorem entry_calls_pinned : Gen.Shape.entryCalls = [".:Encode -> New Encode",
+  ".:New -> newEncodeOptions IsValid newFromKanji newQR",
+  ".:QRCode.Encode -> IsValid newEncodeOptions EncodeToBitmap",
+  "microqr:Encode -> New Encode",
+  "microqr:New -> newEncodeOptions newFromKanji newQR",
+  "microqr:QRCode.Encode -> newEncodeOptions EncodeToBitmap",
+  "rmqr:Encode -> New Encode",
+  "rmqr:New -> newEncodeOptions IsValid newFromKanji newQR",
+  "rmqr:QRCode.Encode -> IsValid newEncodeOptions EncodeToBitmap"] := rfl
 
 end QRV.Props.C08
